@@ -165,8 +165,16 @@ func TestC14(t *testing.T) {
 
 		out := &memFile{}
 		sessions, crashes, staleTotal := 1, 0, 0
+		oldSlicing := rapid.IntRange(0, 4).Draw(rt, "oldslicing")
+		oldSliceSeed := rapid.Uint64().Draw(rt, "oldsliceseed")
+		oldEOFWith := rapid.Bool().Draw(rt, "oldeofwith")
 		newWriter := func(readOff, ovOff int64) (overlay.OverlayWriter, error) {
-			r := bytes.NewReader(old)
+			// the old file comes from a pool reader: short reads are allowed at any time
+			var r io.ReadSeeker = bytes.NewReader(old)
+			if oldSlicing > 0 {
+				r = NewSliceReader(old, oldSlicing, oldSliceSeed, false, oldEOFWith)
+				Ev.Probe("old_file_reader_returns_short_reads")
+			}
 			r.Seek(readOff, io.SeekStart)
 			out.Seek(ovOff, io.SeekStart)
 			return overlay.NewOverlayWriter(r, readOff, out, ovOff)
